@@ -162,10 +162,20 @@ def run(module, cfg, workers=16, timeout=3600, simulate=None, depth=None, seed=N
         e.update(env)
     # TLC's scratch directories (tlc-NNN under java.io.tmpdir) go where they are removed with the run
     os.makedirs(metadir, exist_ok=True)
-    e["JAVA_TOOL_OPTIONS"] = (e.get("JAVA_TOOL_OPTIONS", "") + " -Djava.io.tmpdir=" + metadir).strip()
+    # ... and the JVM's heap is bounded (the `tlc` wrapper sets none: the default is a quarter of the machine per JVM, and
+    # several TLC runs side by side were killed by the kernel's OOM killer)
+    e["JAVA_TOOL_OPTIONS"] = (e.get("JAVA_TOOL_OPTIONS", "") + " -Djava.io.tmpdir=" + metadir + " -Xmx" + heap).strip()
     try:
-        p = subprocess.run(cmd, cwd=cwd, stdout=subprocess.PIPE, stderr=subprocess.STDOUT, timeout=timeout, env=e)
-        out = p.stdout.decode("utf-8", "replace")
+        for attempt in (1, 2):
+            p = subprocess.run(cmd, cwd=cwd, stdout=subprocess.PIPE, stderr=subprocess.STDOUT, timeout=timeout, env=e)
+            out = p.stdout.decode("utf-8", "replace")
+            if p.returncode in (137, 143, -9, -15) and "Finished in" not in out and attempt == 1:
+                # killed from outside (the kernel's OOM killer under load): once more, after a pause
+                time.sleep(30)
+                shutil.rmtree(metadir, ignore_errors=True)
+                os.makedirs(metadir, exist_ok=True)
+                continue
+            break
     except subprocess.TimeoutExpired as ex:
         out = (ex.stdout or b"").decode("utf-8", "replace")
         res.error = "timeout after %ds" % timeout
